@@ -39,7 +39,7 @@ Print Assumptions C13_same_set_path_as_flags.
 
 (* ---- added by bin/mkprops (batch 2) ---- *)
 From GoFlags Require Import Base.Str Base.Utf8 Golib.Strings Golib.Strconv Model.Types Model.Tag Model.Scan Model.Lookup Model.Convert Model.State Model.Closest Model.Help Model.Parse Model.Ini Model.Complete.
-From GoFlags Require Import Proofs.IniPanicSpec.
+From GoFlags Require Import Proofs.IniPanicSpec Proofs.EquivSpec.
 
 Theorem C13_section_resolution_eq :
   forall (root : command) (name : str),
@@ -99,4 +99,147 @@ Theorem C13_section_by_command_path :
          end.
 Proof. exact @C13_section_command_path. Qed.
 Print Assumptions C13_section_by_command_path.
+
+(* an entry that resolves to an option is exactly Option.Set with the entry's value text (plus the ini-name / quote bookkeeping); errors are the Set errors wrapped with the entry's line *)
+Theorem C13_entry_is_Set :
+  forall (orc : oracles) (delim : str) (ht : rt -> str) (ignore_unknown : bool) 
+           (groups : list gref) (e : ini_entry) (r : rt) (q : quotes) (dfl : list nat) 
+           (oc : octx),
+         resolve_entry delim groups (ie_name e) = Some oc ->
+         let o := oc_opt oc in
+         let fid := o_fid o in
+         let result := apply_entry orc delim ht ignore_unknown false groups e r q dfl in
+         o_noini o = false /\
+         match entry_arg o e with
+         | inl a =>
+             match opt_set orc delim ht oc a r with
+             | Ok (r1, Some er) => result = Ok (r1, q, dfl, Some (EIni (ie_line e) (err_text er)))
+             | Ok (r1, None) =>
+                 exists r2 : rt,
+                   result = Ok (r2, IniSpec.ini_quotes q fid (entry_quoted o e), dfl, None) /\
+                   rt_vals r2 = rt_vals r1 /\
+                   rt_active r2 = rt_active r1 /\
+                   rt_logs r2 = rt_logs r1 /\
+                   (forall k : nat, k <> fid -> rt_fl r2 k = rt_fl r1 k) /\
+                   rt_fl r2 fid = fl_set_ininame (rt_fl r1 fid) (ie_name e) /\
+                   rt_fl r1 fid = ValueSpec.set_flags (rt_fl r fid)
+             | Err er => result = Err er
+             | Panic w => result = Panic w
+             end
+         | inr er => er = EIni (ie_line e) err_syntax /\ result = Ok (r, q, dfl, Some er)
+         end.
+Proof. exact @C13_entry_is_set. Qed.
+Print Assumptions C13_entry_is_Set.
+
+(* a list of entries equals the left-to-right fold of Option.Set, like repeated flags *)
+Theorem C13_entries_accumulate_like_occurrences :
+  forall (orc : oracles) (delim : str) (ht : rt -> str) (ignore_unknown : bool) 
+           (groups : list gref) (es : list ini_entry) (occs : list DenoteSpec.occ) 
+           (r : rt) (q : quotes) (dfl : list nat),
+         Forall2 (entry_occ delim groups) es occs ->
+         match DenoteSpec.denote orc delim ht occs r with
+         | Ok (r1, Some er) =>
+             exists
+               (r2 : rt) (q2 : quotes) (er' : err) (es1 : list ini_entry) (en : ini_entry) 
+             (es2 : list ini_entry) (pre : list (octx * option str)) (oc : octx) (a0 : option str) 
+             (post : list (octx * option str)) (rm : rt),
+               es = es1 ++ en :: es2 /\
+               occs = pre ++ (oc, a0) :: post /\
+               Datatypes.length es1 = Datatypes.length pre /\
+               entry_occ delim groups en (oc, a0) /\
+               DenoteSpec.denote orc delim ht pre r = Ok (rm, None) /\
+               opt_set orc delim ht oc a0 rm = Ok (r1, Some er) /\
+               apply_entries orc delim ht ignore_unknown false groups es r q dfl =
+               Ok (r2, q2, dfl, Some (EIni (ie_line en) (err_text er'))) /\ rt_sim r1 r2 /\ err_sim er er'
+         | Ok (r1, None) =>
+             exists r2 : rt,
+               apply_entries orc delim ht ignore_unknown false groups es r q dfl =
+               Ok (r2, entries_quotes (combine es occs) q, dfl, None) /\
+               (forall k : nat, rt_vals r2 k = rt_vals r1 k) /\
+               rt_active r2 = rt_active r1 /\
+               rt_logs r2 = rt_logs r1 /\
+               (forall k : nat,
+                fl_sim (rt_fl r1 k) (rt_fl r2 k) /\
+                f_ininame (rt_fl r1 k) = f_ininame (rt_fl r k) /\
+                f_ininame (rt_fl r2 k) = last_ininame (combine es occs) k (f_ininame (rt_fl r k)))
+         | Err e => apply_entries orc delim ht ignore_unknown false groups es r q dfl = Err e
+         | Panic w => apply_entries orc delim ht ignore_unknown false groups es r q dfl = Panic w
+         end.
+Proof. exact @C13_entries_accumulate_like_flags. Qed.
+Print Assumptions C13_entries_accumulate_like_occurrences.
+
+Theorem C13_slice_entries_accumulate_like_flags :
+  forall (orc : oracles) (delim : str) (ht : rt -> str) (ignore_unknown : bool) 
+           (groups : list gref) (es : list ini_entry) (occs : list DenoteSpec.occ) 
+           (r r1 : rt) (q : quotes) (dfl : list nat) (o0 : opt) (e : vtype) (vs : list str),
+         Forall2 (entry_occ delim groups) es occs ->
+         DenoteSpec.fid_identifies o0 occs ->
+         o_ty o0 = TSlice e ->
+         map snd (DenoteSpec.occs_of (o_fid o0) occs) = map Some vs ->
+         vs <> [] ->
+         f_clearref (rt_fl r (o_fid o0)) = true ->
+         DenoteSpec.denote orc delim ht occs r = Ok (r1, None) ->
+         exists (r2 : rt) (xs : list value),
+           apply_entries orc delim ht ignore_unknown false groups es r q dfl =
+           Ok (r2, entries_quotes (combine es occs) q, dfl, None) /\
+           Forall2 (fun (v : str) (x : value) => convert orc (o_base o0) v e (zero_value e) = Ok (x, None)) vs
+             xs /\ rt_vals r2 (o_fid o0) = VSlice false xs /\ rt_vals r1 (o_fid o0) = VSlice false xs.
+Proof. exact @C13_slice_entries_accumulate. Qed.
+Print Assumptions C13_slice_entries_accumulate_like_flags.
+
+(* END TO END: the entries of a section and ANY command line that spells the same occurrences leave every field with the same value and the same flags (up to the recorded ini-name) *)
+Theorem C13_section_equals_command_line :
+  forall (cfg : pconfig) (orc : oracles) (root : command) (ht : rt -> str) (ignore_unknown : bool)
+           (groups : list gref) (es : list ini_entry) (occs : list DenoteSpec.occ) 
+           (toks : list str) (fuel : nat) (s : pst) (r : rt) (q : quotes) (dfl : list nat),
+         Forall2 (entry_occ (pc_nsdelim cfg) groups) es occs ->
+         DenoteSpec.spells (ps_lk s) toks occs ->
+         ps_args s = toks ->
+         (Datatypes.length toks < fuel)%nat ->
+         match run_loop cfg orc root ht fuel s r with
+         | Ok (s', r1) =>
+             match apply_entries orc (pc_nsdelim cfg) ht ignore_unknown false groups es r q dfl with
+             | Ok (r2, q2, dfl2, ier) =>
+                 (forall k : nat, rt_vals r2 k = rt_vals r1 k) /\
+                 rt_active r2 = rt_active r1 /\
+                 rt_logs r2 = rt_logs r1 /\
+                 (forall k : nat, fl_sim (rt_fl r1 k) (rt_fl r2 k)) /\
+                 dfl2 = dfl /\
+                 (DenoteSpec.denote orc (pc_nsdelim cfg) ht occs r = Ok (r1, None) /\
+                  ps_err s' = ps_err s /\
+                  ps_args s' = [] /\
+                  ier = None /\
+                  q2 = entries_quotes (combine es occs) q /\
+                  (forall k : nat,
+                   f_ininame (rt_fl r1 k) = f_ininame (rt_fl r k) /\
+                   f_ininame (rt_fl r2 k) = last_ininame (combine es occs) k (f_ininame (rt_fl r k))) \/
+                  (exists
+                     (es1 : list ini_entry) (en : ini_entry) (es2 : list ini_entry) 
+                   (pre : list (octx * option str)) (oc : octx) (a1 : option str) (post : 
+                                                                                  list 
+                                                                                  (octx * option str)) 
+                   (er er' : err),
+                     es = es1 ++ en :: es2 /\
+                     occs = pre ++ (oc, a1) :: post /\
+                     Datatypes.length es1 = Datatypes.length pre /\
+                     entry_occ (pc_nsdelim cfg) groups en (oc, a1) /\
+                     DenoteSpec.denote orc (pc_nsdelim cfg) ht occs r = Ok (r1, Some er) /\
+                     ps_err s' = Some (wrap_marshal cfg oc er) /\
+                     ier = Some (EIni (ie_line en) (err_text er')) /\
+                     err_sim er er' /\ DenoteSpec.spells (ps_lk s) (ps_args s') post))
+             | _ => False
+             end
+         | Err e1 =>
+             match apply_entries orc (pc_nsdelim cfg) ht ignore_unknown false groups es r q dfl with
+             | Err e2 => e1 = e2
+             | _ => False
+             end
+         | Panic w1 =>
+             match apply_entries orc (pc_nsdelim cfg) ht ignore_unknown false groups es r q dfl with
+             | Panic w2 => w1 = w2
+             | _ => False
+             end
+         end.
+Proof. exact @C13_section_equals_flags. Qed.
+Print Assumptions C13_section_equals_command_line.
 
